@@ -337,8 +337,12 @@ impl ForeignSpec {
             let at = lo + rng.usize_below(entries.len() - lo + 1);
             entries.insert(at, (None, 0));
         }
-        for _ in 0..self.pool_pad {
-            entries.insert(0, (None, 0));
+        if self.pool_pad > 0 {
+            // (prepended in one go: inserting one by one is quadratic, and every fault plan of a
+            // script re-encodes its start image)
+            let mut padded: Vec<(Option<&str>, u32)> = vec![(None, 0); self.pool_pad as usize];
+            padded.append(&mut entries);
+            entries = padded;
         }
         if !self.long_refs && entries.len() > 0xffff {
             return Err("too many pool entries for two-byte references".into());
